@@ -311,6 +311,129 @@ theorem cleanup_drops {r : Run} {e : Err} (h : TmpSome r.conn) : (cleanup ct non
   rw [ht]
   cases r.conn.inTxn <;> simp
 
+/-! ## exactly when the temporary table is gone after an early failure -/
+
+/-- neither the working nor the committed state has a temporary table -/
+def NoTmp (c : Conn) : Prop := c.working.tmp = none ∧ c.committed.tmp = none
+
+theorem finish_noTmp {b : Bool} {x : Run × Option Err} (h : NoTmp x.1.conn) : (finish b x).committed.tmp = none := by
+  unfold finish; split
+  · exact h.1
+  · exact h.2
+
+theorem TmpEmpty.some {c : Conn} (h : TmpEmpty c) : TmpSome c := let ⟨t, ht, _⟩ := h; ⟨t, ht⟩
+
+theorem stage1_err {r r1 : Run} {e : Err} {s : Schema} {l : List Index} (hno : NoTmp r.conn)
+    (h : execAll ct fault r (.createTmp s :: l.map .createTmpIndex) = (r1, some e)) :
+    NoTmp r1.conn ∨ ∃ ix, r1.trace.getLast? = some (.createTmpIndex ix) := by
+  simp only [execAll] at h
+  split at h
+  · rename_i ra ea heq
+    have hra : ra = r1 := by cases h; rfl
+    subst hra
+    have hs : (step ct fault r (.createTmp s)).2 = some ea := by rw [heq]
+    obtain ⟨h1, h2⟩ := step_err_dbs hs
+    rw [heq] at h1 h2
+    exact .inl ⟨by rw [h1]; exact hno.1, by rw [h2]; exact hno.2⟩
+  · rename_i ra heq
+    exact .inr (execAll_map_err_last _ _ _ _ _ h)
+
+theorem cleanup_gone {r : Run} {e : Err} (hts : TmpSome r.conn) (hnf : fault ≠ some r.n) :
+    (cleanup ct fault r e).1.conn.working.tmp = none ∧
+    (cleanup ct fault r e).1.conn.inTxn = r.conn.inTxn ∧
+    (r.conn.inTxn = false → (cleanup ct fault r e).1.conn.committed.tmp = none) := by
+  rw [cleanup_fst]
+  obtain ⟨t, ht⟩ := hts
+  have hne : (fault == some r.n) = false := by simpa using hnf
+  simp only [step, hne, Conn.exec, Stmt.isDml, Bool.false_eq_true, if_false, applyStmt]
+  rw [ht]
+  cases r.conn.inTxn <;> simp
+
+theorem cleanup_trace (r : Run) (e : Err) : (cleanup ct fault r e).1.trace = r.trace ++ [.dropTmp] := by
+  rw [cleanup_fst, step_trace]
+
+theorem create_early_tmp_gone (commit : Bool) (r : Run) (hno : NoTmp r.conn) (hnum : Numbered r)
+    (hearly : Stmt.renameTmp ∉ (create ct fault p r).1.trace)
+    (hF2 : ∀ ix, (create ct fault p r).1.trace.getLast? ≠ some (.createTmpIndex ix))
+    (hF1 : commit = true ∨ (create ct fault p r).1.conn.inTxn = false)
+    (hcl : ∀ k, fault = some k → (create ct fault p r).1.trace[k]? ≠ some .dropTmp) :
+    (finish commit (create ct fault p r)).committed.tmp = none := by
+  unfold create at *
+  cases hst : execAll ct fault r (.createTmp p.newSchema :: p.tmpIndexes.map .createTmpIndex) with
+  | mk r1 e1 =>
+    rw [hst] at hearly hF2 hF1 hcl
+    have hnum1 : Numbered r1 := by
+      have := execAll_numbered (ct := ct) (fault := fault) (.createTmp p.newSchema :: p.tmpIndexes.map .createTmpIndex) r hnum
+      rw [hst] at this; exact this
+    cases e1 with
+    | some e =>
+      simp only at hF2 ⊢
+      rcases stage1_err hno hst with h | ⟨ix, h⟩
+      · exact finish_noTmp h
+      · exact absurd h (hF2 ix)
+    | none =>
+      simp only at hearly hF2 hF1 hcl ⊢
+      have hts1 : TmpSome r1.conn := (stage1_ok_tmpEmpty hst).some
+      unfold tryBlock at *
+      cases htry : execAll ct fault r1 [.insertSelect p.feeds, .dropOld] with
+      | mk r2 e2 =>
+        rw [htry] at hearly hF1 hcl
+        have hnum2 : Numbered r2 := by
+          have := execAll_numbered (ct := ct) (fault := fault) [.insertSelect p.feeds, .dropOld] r1 hnum1
+          rw [htry] at this; exact this
+        cases e2 with
+        | none =>
+          simp only at hearly
+          exact absurd (elseBranch_trace _) hearly
+        | some e =>
+          simp only at hF1 hcl ⊢
+          have hts2 : TmpSome r2.conn := try_err_tmpSome hts1 htry
+          have hnf : fault ≠ some r2.n := by
+            intro hf
+            have := hcl r2.n hf
+            rw [cleanup_trace, hnum2] at this
+            simp at this
+          obtain ⟨hw, htx, hcm⟩ := cleanup_gone (ct := ct) (e := e) hts2 hnf
+          have hsome : (cleanup ct fault r2 e).2.isNone = false := by
+            cases h : (cleanup ct fault r2 e).2 with
+            | none => exact absurd h (cleanup_snd _ _)
+            | some _ => rfl
+          unfold finish
+          cases commit with
+          | true => simp only [Bool.or_true, if_true, Conn.commit]; exact hw
+          | false =>
+            simp only [hsome, Bool.or_false, Bool.false_eq_true, if_false, Conn.rollback]
+            rcases hF1 with h | h
+            · cases h
+            · exact hcm (by rw [← htx]; exact h)
+
+/-! ## a fault at statement `k ≤ index(DROP original)` -/
+
+theorem create_intact_of_fault {r : Run} {k : Nat} (hi : Intact t0 r.conn) (hn : r.n = 0) (hk : fault = some k)
+    (hle : k ≤ p.tmpIndexes.length + 2) : Intact t0 (create ct fault p r).1.conn := by
+  unfold create
+  have h1 : Intact t0 (execAll ct fault r (.createTmp p.newSchema :: p.tmpIndexes.map .createTmpIndex)).1.conn :=
+    execAll_safe_intact _ _ (by
+      intro s hs
+      simp only [List.mem_cons, List.mem_map] at hs
+      rcases hs with rfl | ⟨ix, _, rfl⟩ <;> rfl) hi
+  split
+  · rename_i r1 e heq; rw [heq] at h1; exact h1
+  · rename_i r1 heq
+    rw [heq] at h1
+    obtain ⟨hn1, hf1⟩ := execAll_none_nofault _ _ _ heq
+    unfold tryBlock
+    split
+    · rename_i r2 e htry
+      exact cleanup_intact (try_err_intact h1 htry)
+    · rename_i r2 htry
+      obtain ⟨_, hf2⟩ := execAll_none_nofault _ _ _ htry
+      exfalso
+      simp only [List.length_cons, List.length_map, List.length_nil] at hn1 hf1 hf2
+      by_cases hlt : k < p.tmpIndexes.length + 1
+      · exact hf1 k hk ⟨by omega, by omega⟩
+      · exact hf2 k hk ⟨by omega, by omega⟩
+
 theorem finish_retrievable {b : Bool} {x : Run × Option Err} {f : List (ColDef × Option Expr)}
     (h : Intact t0 x.1.conn ∨ Good ct t0 f x.1.conn) : Retrievable ct t0 f (finish b x).committed := by
   unfold finish
